@@ -2,6 +2,7 @@
 #include "vf.hpp"
 #include <tfhe.h>
 #include <cmath>
+#include <algorithm>
 #include <pthread.h>
 using namespace vf;
 
@@ -49,6 +50,9 @@ static std::string check_set(const TFheGateBootstrappingParameterSet *p, const D
 int main(int argc, char **argv) {
     init(argc, argv);
     std::vector<long> lambdas; for (long l = -5; l <= 300; l++) lambdas.push_back(l); lambdas.push_back(INT32_MIN); lambdas.push_back(INT32_MAX);
+    // values that alias a valid request when narrowed to 8, 16 or 24 bits, or negated
+    for (int w : {8, 16, 24, 30}) for (long off : {0L, 1L, 40L, 64L, 80L, 81L, 110L, 128L, 129L}) { lambdas.push_back((1L << w) + off); lambdas.push_back(-(1L << w) + off); lambdas.push_back((long)INT32_MIN + off + (w == 8 ? 0 : (1L << w))); }
+    std::sort(lambdas.begin(), lambdas.end()); lambdas.erase(std::unique(lambdas.begin(), lambdas.end()), lambdas.end());
     for (long lam : lambdas) {
         std::string key = fmt("lambda=%ld", lam);
         if (!take(key)) continue;
